@@ -157,6 +157,18 @@ __CPROVER_ensures(OGS < OLD(m_reorder_stack_n) ==> (RS(OGS).node == OLD(RS(OGS).
 """,
 )
 
+# lemma `len` of the visit (same function, same requires / assigns, one more ensures; proved by its own group orient.visit.len): the clause the
+# depth-first loop needs about the one assigned scalar the contract above is silent about.  orient_visit_all = the union, used where the call is replaced.
+import copy as _copy
+VISIT_LEN_ENS = r"""
+/* the m_keep_order bookkeeping pushes at most one pass index */
+__CPROVER_ensures(m_pass_stack_n == OLD(m_pass_stack_n) || m_pass_stack_n == OLD(m_pass_stack_n) + 1)
+"""
+orient_visit_len = _copy.copy(orient_visit)
+orient_visit_len.contract = orient_visit.contract[:orient_visit.contract.index("__CPROVER_ensures(")] + VISIT_LEN_ENS
+orient_visit_all = _copy.copy(orient_visit)
+orient_visit_all.contract = orient_visit.contract + VISIT_LEN_ENS
+
 H_OR = r"""
 size_t nondet_size_t(void); _Bool nondet_bool(void); double nondet_double(void);
 void h_%(fn)s(void)
@@ -190,6 +202,12 @@ G_VISIT = Group(
            "ends up as (node, other end) with link and pass swapped together and weight/length untouched, and exactly one entry "
            "(other end, node, max(weight, level), level) is stacked; every other edge and every older stack entry is untouched")
 
+
+G_VISIT_LEN = Group(
+    name="orient.visit.len", units=[orient_visit_len], extra_c=[MODEL_H, OR_H],
+    harness=_h("orient_visit", "orient_visit(%s, nondet_size_t(), nondet_size_t(), nondet_double(), nondet_double(), nondet_size_t())" % OR_ARGS),
+    entry="h_orient_visit", enforce="orient_visit", backend="cvc5", timeout=600, min_obligations=30,
+    clause="orient_edges, one incident edge of the popped basin, lemma `len`: the m_keep_order bookkeeping pushes at most one pass index")
 
 # --------------------------------------------------------------------------- (c) the depth-first parse: one pop, and the while loop
 import re as _re
@@ -252,11 +270,12 @@ __CPROVER_requires(m_root < nbasins && !HASP(m_root))
 __CPROVER_requires(TWF(OGB) && (!HASP(OGB) || TWF(TPAR(OGB))) && EWF(OGE) && CSR_PEDGE(OGB))
 """
 # state that holds between two pops (for the ghost slot OGS, the ghost edge OGE, the ghost basin OGB); %(rel)s relates OGE to its value at entry
-DFS_STATE = ["OGS >= m_reorder_stack_n || SE(OGS)",
+# (the lengths clause comes first: the clauses are assumed / asserted in this order and W1 reads the stack at a slot below its length)
+DFS_STATE = ["m_reorder_stack_n <= m_reorder_stack_cap && m_pass_stack_n <= m_pass_stack_cap && (!m_keep_order || m_parent_basins_n == nbasins)",
+             "OGS >= m_reorder_stack_n || SE(OGS)",
              "ECHILD(OGE) == SIZE_MAX || LINKS(OGE)",
              "%(rel)s",
-             "W1", "W0",
-             "m_reorder_stack_n <= m_reorder_stack_cap && m_pass_stack_n <= m_pass_stack_cap && (!m_keep_order || m_parent_basins_n == nbasins)"]
+             "W1", "W0"]
 REL_OLD = "EDGE_REL(OGE, OLD(L0(OGE)), OLD(L1(OGE)), OLD(P0(OGE)), OLD(P1(OGE)), OLD(PE(OGE)), OLD(PL(OGE)))"
 REL_GH = "EDGE_REL(OGE, gh_e.link[0], gh_e.link[1], gh_e.pass[0], gh_e.pass[1], gh_e.pass_elevation, gh_e.pass_length)"
 DFS_ASSIGNS = ("__CPROVER_object_whole(m_edges), __CPROVER_object_whole(m_reorder_stack), m_reorder_stack_n, __CPROVER_object_whole(m_pass_stack), "
@@ -272,7 +291,8 @@ orient_pop = Unit(
               "  const size_t or_n0_ = m_reorder_stack_n;\n"
               "  orient_visit(%s, node, parent, pass_elevation, parent_pass_elevation, i);\n"
               "  /* ghost: remember where the ghost basin was stacked */ if (m_reorder_stack_n > or_n0_ && RS(or_n0_).node == OGB) OGS_B = or_n0_; }" % OR_ARGS)] + OR_VOCAB,
-    body_prefix=OR_LOCALS + "    /* ghost: value of the ghost edge at entry (a loop invariant cannot use __CPROVER_old) */ const struct fsl_edge gh_e = m_edges[OGE];\n",
+    body_prefix=OR_LOCALS + "    /* ghost: value of the ghost edge at entry (a loop invariant cannot use __CPROVER_old) */ const struct fsl_edge gh_e = m_edges[OGE];\n"
+                "    /* ghost: length of the stack at entry */ const size_t gh_n0 = m_reorder_stack_n;\n",
     body_suffix="    /* ghost: this basin has been popped */ if (HASP(OGB) && node == TPAR(OGB)) OGV_P = 1; if (node == OGB) OGV_B = 1;\n",
     contract=DFS_SHAPE + r"""
 /* a non-empty stack; induction-hypothesis instance of the stack-element invariant at the slot that is popped (DESIGN 3.9) */
@@ -285,6 +305,10 @@ __CPROVER_ensures(m_reorder_stack_n + 1 >= OLD(m_reorder_stack_n))
     loops={0: r"""
 __CPROVER_assigns(i, """ + DFS_ASSIGNS + r""")
 __CPROVER_loop_invariant(node < nbasins && parent < nbasins && m_nodes_connects_ptr[node] <= i)
+/* the visits only push */
+__CPROVER_loop_invariant(m_reorder_stack_n + 1 >= gh_n0)
+/* the edge towards the parent of the popped basin stays (parent, basin) during the scan of its row (it is the one edge of the row that is left as it is) */
+__CPROVER_loop_invariant(node == parent || ORIENTED(TPED(node)))
 """ + "".join("__CPROVER_loop_invariant(%s)\n" % (c % dict(rel=REL_GH)) for c in DFS_STATE if c not in ("W1", "W0")) + r"""
 /* while the parent of the ghost basin is being processed: the slots before i have been visited */
 __CPROVER_loop_invariant(!(HASP(OGB) && (OGV_P || (node == TPAR(OGB) && TWSP(OGB) < i))) || (ORIENTED(TPED(OGB)) && (OGV_B || node == OGB || ONSTACK_B)))
@@ -324,7 +348,7 @@ H_DFS = H_OR.replace("    struct fsl_rs *m_reorder_stack;", "    struct fsl_rs *
                      "    OGV_P = nondet_bool(); OGV_B = nondet_bool(); OGS_B = nondet_size_t();")
 NOPO = ["--pointer-overflow-check"]
 G_POP = Group(
-    name="orient.pop", units=[orient_visit, orient_pop], extra_c=[MODEL_H, OR_H],
+    name="orient.pop", units=[orient_visit_all, orient_pop], extra_c=[MODEL_H, OR_H],
     harness=H_DFS % dict(fn="orient_pop", call="orient_pop(%s%s)" % (OR_ARGS, TG_ARGS), pre=""),
     entry="h_orient_pop", enforce="orient_pop", replace=["orient_visit"], loop_contracts=True, backend="cadical", timeout=1800, min_obligations=30,
     no_checks=NOPO,
@@ -997,7 +1021,7 @@ G_CV_STEP = [Group(
            "the pit sits at the last chain position), lemma `%s`: %s" % (l, _CV_WHAT[l])) for l in CV_LEMMAS]
 
 # groups whose proofs do not finish on any installed back end yet (memory / time): kept for development, NOT registered, nothing is claimed from them
-EXPERIMENTAL = [G_CSR, G_POP, G_DFS] + G_CSR_SLICES
+EXPERIMENTAL = [G_CSR, G_POP, G_DFS, G_VISIT_LEN] + G_CSR_SLICES
 
 _OR_GROUPS = [G_COUNT, G_FILL, G_VISIT, G_OR_BOUNDED, G_OR_BOUNDED4] + (EXPERIMENTAL if _os.environ.get("OR_EXPERIMENTAL") else [])
 GROUPS = {"C15": _OR_GROUPS, "C01": G_CV_STEP, "C08": [G_COUNT, G_FILL, G_VISIT] + G_CV_STEP}
